@@ -76,3 +76,14 @@ import PyodaProofs.GenAgreeC01
 #print axioms Pyoda.GenAgree.C01.gen_Pers_toMonth_eq
 #print axioms Pyoda.GenAgree.C01.gen_Pers_split_eq
 #print axioms Pyoda.GenAgree.C01.gen_Pers_leapArithmetic_eq
+#print axioms Pyoda.GenAgree.C01.gen_Calc_minYear_eq
+#print axioms Pyoda.GenAgree.C01.gen_Calc_maxYear_eq
+#print axioms Pyoda.GenAgree.C01.gen_Calc_daysAtStartOfYear1_eq
+#print axioms Pyoda.GenAgree.C01.gen_Calc_getYear_loop1_eq
+#print axioms Pyoda.GenAgree.C01.gen_Calc_getYear_loop2_agree
+#print axioms Pyoda.GenAgree.C01.gen_Calc_getYear_agree
+#print axioms Pyoda.GenAgree.C01.gen_Calc_getYearMonthDay_eq
+#print axioms Pyoda.GenAgree.C01.gen_Calc_ymdOfDays_agree
+#print axioms Pyoda.GenAgree.C01.gen_Calc_daysOfYmdRaw_eq
+#print axioms Pyoda.GenAgree.C01.gen_Calc_validate_eq
+#print axioms Pyoda.GenAgree.C01.gen_Calc_dayOfYear_eq
